@@ -728,18 +728,23 @@ fn get_where_filters(params: &EntityParams, prepared_query: &mut SingleQuery, t:
                                         v, operation, &value
                                     ));
                                 }
+                                //a text default is bound, never written in the SQL text
                                 ParamValue::String(v) => {
+                                    let default_param =
+                                        prepared_query.add_param(String::from(v), true);
                                     tab(&mut q, t + 1);
                                     q.push_str(&format!(
-                                        "WHEN '{}' {} {} THEN ",
-                                        v, operation, &value
+                                        "WHEN {} {} {} THEN ",
+                                        default_param, operation, &value
                                     ));
                                 }
                                 ParamValue::Binary(v) => {
+                                    let default_param =
+                                        prepared_query.add_param(String::from(v), true);
                                     tab(&mut q, t + 1);
                                     q.push_str(&format!(
-                                        "WHEN '{}' {} {} THEN ",
-                                        v, operation, &value
+                                        "WHEN {} {} {} THEN ",
+                                        default_param, operation, &value
                                     ));
                                 }
                                 _ => unreachable!(),
